@@ -1,10 +1,10 @@
 package main
 
 import (
-	"github.com/mycoria/mycoria/state"
-	"github.com/mycoria/mycoria/frame"
 	"bytes"
 	"fmt"
+	"github.com/mycoria/mycoria/frame"
+	"github.com/mycoria/mycoria/state"
 	"strings"
 
 	"github.com/mycoria/mycoria/m"
@@ -18,6 +18,7 @@ type kxWorld struct {
 	lo, hi *rnode
 	clears [2]bool
 	role   [2]string
+	last   [2]*inflight // the frame last delivered from lo / hi
 }
 
 func newKxWorld(ids []*m.Address) (*kxWorld, error) {
@@ -145,6 +146,8 @@ func (e kxEv) term() string {
 		return fmt.Sprintf("(EClear %s)", coqBool(e.x))
 	case "forget":
 		return fmt.Sprintf("(EForget %s)", coqBool(e.x))
+	case "dup":
+		return fmt.Sprintf("(EDup %s)", coqBool(e.x))
 	case "drop":
 		return fmt.Sprintf("(EDrop %s %d)", coqBool(e.x), e.i)
 	default:
@@ -183,6 +186,18 @@ func (k *kxWorld) apply(c *Ctx, e kxEv) (enabled bool, note string) {
 		active, _ := X.ro.VerifHelloState(Y.id.IP)
 		X.ro.VerifHelloExpire(Y.id.IP)
 		return active, ""
+	case "dup":
+		// the network delivers a second, identical copy of the frame last delivered from X
+		l := k.last[b2i(e.x)]
+		if l == nil {
+			return false, ""
+		}
+		k.w.queue = append(k.w.queue, &inflight{link: l.link, data: append([]byte(nil), l.data...)})
+		res := k.w.step(len(k.w.queue) - 1)
+		if res.panicked() {
+			c.Violate("a duplicated key-setup frame crashed a router worker", "kx-panic", map[string]any{"event": e.String()})
+		}
+		return true, ""
 	case "forget":
 		// X loses its keys and hello state for Y (restart / idle session evicted); only at quiescence
 		if len(k.w.queue) != 0 {
@@ -219,6 +234,7 @@ func (k *kxWorld) apply(c *Ctx, e kxEv) (enabled bool, note string) {
 		}
 		recvIn, _ := k.keysOf(!e.x)
 		nq := len(k.w.queue)
+		k.last[b2i(e.x)] = &inflight{link: k.w.queue[ch[e.i]].link, data: append([]byte(nil), k.w.queue[ch[e.i]].data...)}
 		res := k.w.step(ch[e.i])
 		// how the receiver got its current keys: by serving a request (it answered) or by completing its own
 		if nowIn, _ := k.keysOf(!e.x); !bytes.Equal(nowIn, recvIn) {
@@ -299,6 +315,9 @@ func runC14(c *Ctx) error {
 					}
 					if quiet {
 						cands = append(cands, kxEv{kind: "forget", x: x})
+					}
+					if k.last[b2i(x)] != nil {
+						cands = append(cands, kxEv{kind: "dup", x: x})
 					}
 					if k.est(x) && !k.est(!x) && len(k.channel(!x)) == 0 && !k.clears[b2i(x)] {
 						cands = append(cands, kxEv{kind: "clear", x: x})
